@@ -13,16 +13,16 @@ PRELUDE = '''func v() {
 func two() (int, int) {
 \treturn 1, 2
 }
-func fi(a int) int {
+func fint(a int) int {
 \treturn a
 }
-func fb(a bool) bool {
+func fboo(a bool) bool {
 \treturn a
 }
-func fs(a string) string {
+func fstr(a string) string {
 \treturn a
 }
-func fl(a []int) int {
+func flen(a []int) int {
 \treturn len(a)
 }
 xi := 1
@@ -58,10 +58,10 @@ POSITIONS = [
     ("and-right", "print(true && {E})", {"bool"}),
     ("or-left", "print({E} || false)", {"bool"}),
     ("or-right", "print(false || {E})", {"bool"}),
-    ("arg-int", "print(fi({E}))", {"int"}),
-    ("arg-bool", "print(fb({E}))", {"bool"}),
-    ("arg-string", "print(fs({E}))", {"string"}),
-    ("arg-slice", "print(fl({E}))", {"[]int"}),
+    ("arg-int", "print(fint({E}))", {"int"}),
+    ("arg-bool", "print(fboo({E}))", {"bool"}),
+    ("arg-string", "print(fstr({E}))", {"string"}),
+    ("arg-slice", "print(flen({E}))", {"[]int"}),
     ("elem-int", "print(len([]int{{{E}}}))", {"int"}),
     ("elem-string", "print(len([]string{{{E}}}))", {"string"}),
     ("elem-bool", "print(len([]bool{{{E}}}))", {"bool"}),
